@@ -281,7 +281,9 @@ func (s *structure) diagnose(p *pagedoc.TPara, k int) paraDiag {
 		if q.Block && q.AvoidParent {
 			// a block-level out-of-flow box that is a child of a container with break-inside: avoid
 			flags["oof-child-of-avoid"] = true
-			if q.Role == "float" {
+			if q.Role == "float" && q.AvoidPlain {
+				// ... a float, the container is a child of the body, nothing in the document
+				// has break-before / break-after: avoid
 				flags["oof-float-child-of-avoid"] = true
 			}
 		}
